@@ -103,11 +103,15 @@ def plan(tier, seed):
         cms = list(FF_CODEMODS) + ([rnd.choice(FF_SEMGREP)] if (g % 2 == 0) else [])
         rnd.shuffle(cms)
         groups.append({"mode": "find-and-fix", "files": files, "result_files": {}, "argv": ["--codemod-include", ",".join(cms)], "sibling_probe": sorted(files)[:: max(1, n // 3)][:3] + ["pkg1/helpers.py"], "codemods": cms})
+        # the same project with line-scoped excludes on the probe files (every odd line): the filter of a file must not depend on which siblings were processed before it
+        probes = groups[-1]["sibling_probe"]
+        pats = [f"{rel}:{ln}" for rel in probes for ln in range(1, files[rel].count(b"\n") + 2, 2)]
+        groups.append({"mode": "find-and-fix", "files": files, "result_files": {}, "argv": ["--codemod-include", ",".join(cms), "--path-exclude", ",".join(pats)], "sibling_probe": probes, "codemods": cms, "k": 4, "line_scoped": True})
         sfiles, res = sast_project(rnd, rnd.choice((9, 12, 18)))
         groups.append({"mode": "sast", "files": sfiles, "result_files": res, "argv": ["--sonar-issues-json", "{dir}/issues.json", "--sonar-hotspots-json", "{dir}/hotspots.json", "--sarif", "{dir}/semgrep.sarif", "--defectdojo-findings-json", "{dir}/dd.json"], "sibling_probe": []})
     cases = []
     for gi, G in enumerate(groups):
-        k = (6 if quick else 14)
+        k = G.get("k") or (6 if quick else 14)
         ws = [1, 2, 4, 16]
         for j in range(k):
             w = ws[j % 4] if j < 4 else rnd.choice(ws)
@@ -164,7 +168,7 @@ def judge_group(gi, G, items):
             a = per_file(ref[1]["report"], ref[1]["tree"], c["rel"]); b = per_file(r["report"], r["tree"], c["rel"])
             if a != b:
                 cm = next((x[0] for x, y in zip(a["changes"] + [(None,)], b["changes"] + [(None,)]) if x != y), "?")
-                viols.append(Violation("C11", f"sibling-dependent/{str(cm).split('/')[-1]}", f"{c['rel']}: outcome with siblings differs from outcome alone", {"file": c["rel"], "with_siblings": a, "alone": b}, jobs=[strip(ref[0]), strip(c)]))
+                viols.append(Violation("C11", f"sibling-dependent/{str(cm).split('/')[-1]}" + ("/line-scoped-patterns" if G.get("line_scoped") else ""), f"{c['rel']}: outcome with siblings differs from outcome alone", {"file": c["rel"], "with_siblings": a, "alone": b}, jobs=[strip(ref[0]), strip(c)]))
     info["sibling_checked"] = sib
     return viols, info
 
